@@ -20,8 +20,9 @@ type vSent struct {
 
 // vInner is a recording inner secure swarm.
 type vInner struct {
-	mtu  int
-	sent *[]vSent
+	mtu    int
+	sent   *[]vSent
+	closes *int
 }
 
 // the code under test tells fragments from several goroutines (errgroup)
@@ -36,9 +37,14 @@ func (s vInner) Tell(ctx context.Context, dst vAddr, v p2p.IOVec) error {
 func (s vInner) Receive(ctx context.Context, fn func(p2p.Message[vAddr])) error { return nil }
 func (s vInner) LocalAddrs() []vAddr                                            { return []vAddr{0} }
 func (s vInner) MTU() int                                                       { return s.mtu }
-func (s vInner) Close() error                                                   { return nil }
-func (s vInner) ParseAddr(data []byte) (vAddr, error)                           { return vAddr(data[0] - 'a'), nil }
-func (s vInner) PublicKey() struct{}                                            { return struct{}{} }
+func (s vInner) Close() error {
+	if s.closes != nil {
+		*s.closes++
+	}
+	return nil
+}
+func (s vInner) ParseAddr(data []byte) (vAddr, error) { return vAddr(data[0] - 'a'), nil }
+func (s vInner) PublicKey() struct{}                  { return struct{}{} }
 func (s vInner) LookupPublicKey(ctx context.Context, a vAddr) (struct{}, error) {
 	return struct{}{}, nil
 }
@@ -49,7 +55,7 @@ func vNewSwarm(inner vInner, mtu int) *Swarm[vAddr, struct{}] {
 		inner:      inner,
 		mtu:        mtu,
 		numWorkers: 1,
-		fragLayer:  &fragLayer{collectors: make(map[collectorID]*collector)},
+		fragLayer:  &fragLayer{collectors: make(map[collectorID]*collector), cf: func() {}},
 		asker:      newAsker(),
 		tells:      swarmutil.NewTellHub[vAddr](),
 		asks:       swarmutil.NewAskHub[vAddr](),
